@@ -13,7 +13,7 @@
    state only) is a property of the code's structure that the thread runs of harness/props/c09.py test; GIL
    scheduling itself cannot be exhibited by the model.  A nested checked call is an ordinary call inside the body
    oracle: it has its own context by construction of [run_call]. *)
-From DL Require Import Base Lexer Parser Eval Shape Dtypes Check Context Hints Call World WorldProofs Lazy LazyProofs.
+From DL Require Import Base Lexer Parser Eval Shape Dtypes Check Context Hints Call World WorldProofs Lazy LazyProofs Structural Nested NestedProofs.
 
 Theorem C09_history_isolated : forall h w,
   run_history current w h =
@@ -72,6 +72,28 @@ Example C09_per_decorator_cell_refuted :
     = [Some (CReturned VNone); Some (CRejected (ENDims "x" 2 1))].
 Proof. vm_compute. split; reflexivity. Qed.
 
+(* ---- nesting and recursion ---- *)
+(* a body may make checked calls (of other functions, of itself) before it finishes; with a context per activation - the
+   wrapper's local variable - every one of those calls has the outcome it has alone, and the enclosing call has the outcome
+   of run_call with what its body finally does: none of them sees another's bindings *)
+Theorem C09_nested_calls_isolated : forall name w ps args b,
+  snd (run_nested FreshCtx name w ps args b) = snd (run_call w ps args (final b)).
+Proof. exact nested_calls_do_not_matter. Qed.
+Theorem C09_every_activation_alone : forall b st,
+  snd (fst (run_body FreshCtx st b)) = alone b /\ snd (run_body FreshCtx st b) = final b.
+Proof. exact fresh_contexts_isolate. Qed.
+(* one context object per decorated function, rewound on entry (a seeded change): a recursive activation with n = 5 makes the
+   outer activation (n = 3) accept a result of length 5 *)
+Definition T_n : annot :=
+  match parse_shape "n" with Ok ty => {| a_ty := ty; a_dtypes := []; a_opt := false |} | Err _ => {| a_ty := scalar_type; a_dtypes := []; a_opt := false |} end.
+Definition w_rec : wrapped := {| w_params := [("x", (false, [Some T_n]))]; w_ret := Some (false, [Some T_n]); w_provider := PNone |}.
+Definition rec_body : body := CallThen "f" w_rec PSBad [("x", arr2 [5]%Z)] (Finish (BReturn (arr2 [5]%Z))) (Finish (BReturn (arr2 [5]%Z))).
+Example C09_context_per_function_refuted :
+  snd (run_nested CtxPerFunction "f" w_rec PSBad [("x", arr2 [3]%Z)] rec_body) = CReturned (arr2 [5]%Z) /\
+  snd (run_nested FreshCtx "f" w_rec PSBad [("x", arr2 [3]%Z)] rec_body) = CRejected (EShape "return" 0 3%Z 5%Z).
+Proof. vm_compute. split; reflexivity. Qed.
+
 Redirect "C09.assumptions.1" Print Assumptions C09_history_isolated.
+Redirect "C09.assumptions.4" Print Assumptions C09_nested_calls_isolated.
 Redirect "C09.assumptions.3" Print Assumptions C09_lazy_resolution_is_eager.
 Redirect "C09.assumptions.2" Print Assumptions C09_calls_commute.
